@@ -391,6 +391,135 @@ def corr_prng(ctx, drv):
 
 
 # ---------------------------------------------------------------------------------------------
+# option combinations of ArrayBuilder2D: custom offset lists x symmetry x use_move x even / odd boards (deterministic)
+#
+# The boolean forms of disallow_adjacent are what every in-library caller uses; the third form, an explicit offset list,
+# reaches code paths (diagonals, long jumps, the "cell next to its own mirror image" test) that the boolean forms never do.
+# All families below are closed under negation and never contain (0, 0): for those the property's adjacency clause has one
+# reading only (no two non-default cells at a listed offset).
+
+def _closed(offs):
+    out = []
+    for o in offs:
+        for q in (o, (-o[0], -o[1])):
+            if q != (0, 0) and q not in out:
+                out.append(q)
+    return out
+
+
+def offset_families(h, w):
+    orth = [(-1, 0), (1, 0), (0, -1), (0, 1)]
+    diag = [(-1, -1), (-1, 1), (1, -1), (1, 1)]
+    fams = [
+        ("orth4-as-list", orth),
+        ("diag4", diag),
+        ("king8", [(dy, dx) for dy in (-1, 0, 1) for dx in (-1, 0, 1) if (dy, dx) != (0, 0)]),
+        ("knight8", _closed([(1, 2), (2, 1), (1, -2), (2, -1)])),
+        ("jump2", _closed([(0, 2), (2, 0)])),
+        ("king8+jump2", _closed(orth + diag + [(0, 2), (2, 0), (2, 2), (2, -2)])),
+        ("row-only", [(0, 1), (0, -1)]),
+        ("col-only", [(1, 0), (-1, 0)]),
+        # the displacement between a cell and its own point-mirror image: corner, anti-corner, second cell of the first row,
+        # and the cell nearest to the centre (a long jump on most boards)
+        ("corner-mirror", _closed([(h - 1, w - 1)])),
+        ("anticorner-mirror", _closed([(h - 1, -(w - 1))])),
+        ("second-cell-mirror", _closed([(h - 1, w - 3)])),
+        ("centre-mirror", _closed([(h - 1 - 2 * ((h - 1) // 2), w - 1 - 2 * ((w - 1) // 2))])),
+    ]
+    return [(n, o) for n, o in fams if o]
+
+
+OPTION_BOARDS = [(2, 2), (2, 4), (4, 4), (3, 3), (4, 5), (1, 2), (2, 3), (4, 2), (1, 3), (3, 4)]
+OPTION_VALUES = [([0, 1, 2], 0), ([1, 2], -1), ([5, 0, 3], 5), ([7], 0)]
+
+
+def option_specs(rng=None):
+    """[(label, array spec)]: every board x offset family x symmetry x use_move; the choice set and the ORDER of the offset list
+    vary with the combination (and with `rng` when given)."""
+    out = []
+    k = 0
+    for (h, w) in OPTION_BOARDS:
+        for name, offs in offset_families(h, w):
+            for sym in (True, False):
+                for move in (False, True):
+                    vals, d = OPTION_VALUES[k % len(OPTION_VALUES)]
+                    offs2 = list(offs)
+                    if rng is not None:
+                        rng.shuffle(offs2)
+                    elif k % 3 == 1:
+                        offs2.reverse()
+                    k += 1
+                    label = "%dx%d:%s%s%s" % (h, w, name, ":sym" if sym else "", ":move" if move else "")
+                    out.append((label, ("array", h, w, list(vals), d, offs2, sym, move, None)))
+    return out
+
+
+def grid_complaint(h, w, allowed, d, D, sym, g, adjacency=True):
+    """What is wrong with the grid `g` as a problem of ArrayBuilder2D(h, w, choice, d, D, sym) reached from the all-default grid
+    by value-setting updates only (None if nothing): shape, values, point symmetry of the non-default cells, no two non-default
+    cells at an offset of D."""
+    if not (isinstance(g, list) and len(g) == h and all(isinstance(r, list) and len(r) == w for r in g)):
+        return "shape: %r is not a %dx%d grid" % (g, h, w)
+    for y in range(h):
+        for x in range(w):
+            if g[y][x] not in allowed:
+                return "values: cell (%d,%d) of %r holds %r, not in choice+default" % (y, x, g, g[y][x])
+    if sym:
+        for y in range(h):
+            for x in range(w):
+                if (g[y][x] == d) != (g[h - 1 - y][w - 1 - x] == d):
+                    return "symmetry: cell (%d,%d) of %r and its mirror image differ in being a clue" % (y, x, g)
+    if adjacency:
+        for y in range(h):
+            for x in range(w):
+                if g[y][x] == d:
+                    continue
+                for dy, dx in D:
+                    y2, x2 = y + dy, x + dx
+                    if 0 <= y2 < h and 0 <= x2 < w and g[y2][x2] != d:
+                        return "adjacency: non-default cells (%d,%d) and (%d,%d) of %r are at the forbidden offset (%d,%d)" % (
+                            y, x, y2, x2, g, dy, dx)
+    return None
+
+
+@guarded(30.0)
+def check_generate_options(spec, seed, mode):
+    """generate_problem on one ArrayBuilder2D: every problem handed to the solver callback (and the returned one) must have values
+    from the choice set, keep the point symmetry and - without use_move, where every update sets values - the adjacency option.
+    mode "all-neighbours": the solver rejects everything, so ALL neighbours of the initial problem are handed over;
+    mode "anneal": hash-based answers and scores, 40 steps."""
+    dr, sr, bd, gc = _mods()
+    _, h, w, vals, d, dis, sym, move, initial = spec
+    b = build_py(spec)
+    D = [tuple(o) for o in b.disallow_adjacent]
+    allowed = set(vals) | {d}
+    trace = []
+
+    def solver(p):
+        trace.append((p, copy.deepcopy(p)))
+        if mode == "all-neighbours":
+            return (False,)
+        hh = mock_hash(prob_code(["g", [list(r) for r in p]]), seed + 11)
+        return (hh % 100 < 55, hh)
+
+    sr.use_deterministic_prng(True, seed)
+    try:
+        res = gc.generate_problem(solver, builder_pattern=b, score=lambda a: (a // 100) % 5, uniqueness=lambda a: a % 97 == 0,
+                                  max_steps=1 if mode == "all-neighbours" else 40)
+    finally:
+        sr.use_deterministic_prng(False)
+    for i, (p, snap) in enumerate(trace):
+        if p != snap:
+            return "problem %d handed to the solver was mutated later" % i
+        bad = grid_complaint(h, w, allowed, d, D, sym, snap, adjacency=not move)
+        if bad:
+            return "problem %d handed to the solver: %s" % (i, bad)
+    if res is not None and not any(p is res for p, _ in trace):
+        return "the returned problem was never handed to the solver"
+    return None
+
+
+# ---------------------------------------------------------------------------------------------
 # (b) builders
 
 def gen_grid_for(rng, spec):
@@ -469,6 +598,16 @@ def corr_builders(ctx, drv):
         cases.append((spec, b, grid, seed, malformed))
         lines.append(sx(["c19_cands", seed, FUEL, array_cfg_sx(b), grid]))
         lines.append(sx(["c19_initial", array_cfg_sx(b)]))
+    # the deterministic option combinations (custom offset lists x symmetry x use_move x board parities): the all-default
+    # grid and one random (mostly symmetrised) grid each
+    for label, spec in option_specs(rng):
+        b = build_py(spec)
+        for grid in (b.initial(), gen_grid_for(rng, spec)):
+            seed = rng.randint(0, 10 ** 6)
+            cases.append((spec, b, grid, seed, False))
+            lines.append(sx(["c19_cands", seed, FUEL, array_cfg_sx(b), grid]))
+            lines.append(sx(["c19_initial", array_cfg_sx(b)]))
+        ctx.count("array.options:" + label.split(":")[1])
     outs = drv.run(lines)
     apply_cases, apply_lines = [], []
     for i, (spec, b, grid, seed, malformed) in enumerate(cases):
@@ -821,7 +960,10 @@ def correspond(ctx):
         "sequences (1-25 ops of next/random/randint/choice/shuffle; 30% with malformed ops: a > b, width > 2^32, empty choice), through "
         "deterministic_random or srandom. (b) Choice.candidates; ArrayBuilder2D with random h,w in 0..5, choice sets with/without the "
         "default and with duplicates, disallow_adjacent False/True/custom offsets, symmetry, use_move, optional initial grid; grids "
-        "random, partly symmetrised, 6% malformed (ragged/short); candidates, initial, copy_with_update, and build_neighbor_generator "
+        "random, partly symmetrised, 6% malformed (ragged/short), plus every combination of 10 boards (2x2, 2x4, 4x4, 3x3, 4x5, ...) x 12 "
+        "custom offset lists (diagonals, 8-neighbourhood, knight moves, distance-2 jumps, row/column only, the displacement between "
+        "a cell and its own mirror image) x symmetry x use_move on the all-default and one random grid; candidates, initial, "
+        "copy_with_update, and build_neighbor_generator "
         "on nested list/tuple/constant patterns a few steps away from the initial problem. (c) generate_problem with hash-based mock "
         "callbacks (solver optionally depending on the call index), pretest/clue_penalty on/off, solve_initial_problem, max_steps in "
         "{None,0,1,3,8,20,40}, four temperatures/decays; real run twice under different random.seed. (d) SegmentationBuilder2D twice "
@@ -984,6 +1126,19 @@ def check_builder_invariants(spec, seed, steps=6):
                         return False
         return True
 
+    def value_setting(c1, c2):
+        """Is the step c1 -> c2 a value-setting update (as opposed to a move of existing values, which use_move adds and for
+        which the property does not demand the adjacency option)?  Judged by its effect, not by the form of the update: one
+        cell - or, under symmetry, a cell and its mirror image - changes, and the result is not a rearrangement of the values."""
+        if not move:
+            return True
+        diff = sorted(p for p in c1 if c1[p] != c2[p])
+        if not diff or sorted(map(repr, c1.values())) == sorted(map(repr, c2.values())):
+            return False
+        if len(diff) == 1:
+            return True
+        return bool(sym) and len(diff) == 2 and diff[1] == (h - 1 - diff[0][0], w - 1 - diff[0][1])
+
     sr.use_deterministic_prng(True, seed)
     try:
         g = b.initial()
@@ -1009,8 +1164,9 @@ def check_builder_invariants(spec, seed, steps=6):
                             return "update %r wrote %r, not in choice+default" % (u, c2[p])
                 if sym and is_sym(g) and not is_sym(g2):
                     return "symmetry: update %r of symmetric grid %r gives asymmetric %r" % (u, g, g2)
-                if not move and closed and no_adj(g) and (not sym or is_sym(g)) and not no_adj(g2):
-                    return "adjacency: value update %r of %r creates adjacent non-default cells %r" % (u, g, g2)
+                if closed and value_setting(c1, c2) and no_adj(g) and (not sym or is_sym(g)) and not no_adj(g2):
+                    return "adjacency: value update %r of %r creates non-default cells at a forbidden offset (one of %r): %r" % (
+                        u, g, sorted(D), g2)
             if not cands:
                 break
             g = b.copy_with_update(g, rng.choice(cands))
@@ -1209,7 +1365,24 @@ def search(ctx, why):
         d = _run(check_choice_shuffle_random, seed)
         if d:
             add("prng:" + d.split(" ")[0], d, {"kind": "csr", "seed": seed})
-    # builder clauses on the real objects
+    # builder clauses on the real objects: first the deterministic option combinations (custom offset lists incl. diagonals,
+    # knight moves, long jumps and mirror displacements x symmetry x use_move x even / odd boards) ...
+    for k, (label, spec) in enumerate(option_specs()):
+        for seed in (k, k + 1000):
+            ctx.count("search:builder-options")
+            d = _run(check_builder_invariants, spec, seed=seed)
+            if d:
+                add("builder:" + d.split(":")[0].split(" ")[0], "ArrayBuilder2D%r [%s] seed %d: %s" % (spec[1:], label, seed, d),
+                    {"kind": "builder", "spec": _jsonable(spec), "seed": seed})
+        for mode in ("all-neighbours", "anneal"):
+            ctx.count("search:generate-options")
+            d = _run(check_generate_options, spec, seed=k, mode=mode)
+            if d:
+                add("generate:solver-given-" + _complaint_kind(d),
+                    "generate_problem(builder_pattern=ArrayBuilder2D%r) [%s] under use_deterministic_prng(True, %d), %s: %s" % (
+                        spec[1:], label, k, mode, d),
+                    {"kind": "generate-options", "spec": _jsonable(spec), "seed": k, "mode": mode})
+    # ... then random ones
     rng = pyrandom.Random(ctx.seed * 7919 + 5)
     for i in range(ctx.n(150, 1500)):
         spec = list(gen_array_spec(rng, small=True))
@@ -1255,6 +1428,13 @@ def search(ctx, why):
                         ", ".join("%s=%r" % kv for kv in kw.items()), seed, d),
                     {"kind": "segmentation", "seed": seed, "config": kw})
     return list(found.values())
+
+
+def _complaint_kind(d):
+    for k in ("adjacency", "symmetry", "values", "shape", "mutated"):
+        if k in d:
+            return k
+    return "other"
 
 
 def _jsonable(spec):
@@ -1311,6 +1491,12 @@ def replay(ctx, data):
     if k == "builder":
         d = check_builder_invariants(_spec_from_json(data["spec"]), data["seed"])
         return Finding("builder:replay", d, data) if d else None
+    if k == "generate-options":
+        try:
+            d = check_generate_options(_spec_from_json(data["spec"]), data["seed"], data["mode"])
+        except Exception as e:
+            d = "raised %s: %s" % (core.err_name(e), e)
+        return Finding("generate:solver-given-" + _complaint_kind(d), d, data) if d else None
     if k == "neighbours":
         try:
             d = check_pattern_neighbours(_spec_from_json(data["spec"]), data["seed"])
